@@ -42,11 +42,11 @@ def run_c12(tier):
     reps = 2 if tier == 'quick' else 60
     jobs = [{'kind': 'keygen', 'seed': vlib.jseed(seed, i, r), 'case': cs} for r in range(reps) for i, cs in enumerate(cases)]
     # pools of key objects: caches x re-decoding x aggregation (KeyPool.tla), every behaviour
-    pc = {'MaxLen': 3 if tier == 'quick' else 4, 'MaxPool': 5, 'StaleBug': False}
+    pc = {'MaxLen': 3 if tier == 'quick' else 4, 'MaxPool': 4, 'StaleBug': False}
     res = vlib.tlc(SPEC, 'KeyPool', vlib.cfg(pc, invariants=['CacheIsScalarTimesG', 'Emit'], properties=['CacheOnlyFills', 'ScalarsNeverChange']), name='kp')
     if not res.ok:
         raise vlib.Undecided('KeyPool: %s %s' % (res.violated, res.error))
-    ck.add_states(res, 'pool of BLS key objects: every sequence of %d PublicKey / re-decode / aggregate actions' % pc['MaxLen'])
+    ck.add_states(res, 'pool of BLS key objects: every sequence of %d PublicKey / PublicKey-on-all / re-decode / aggregate (lists with repeats) actions' % pc['MaxLen'])
     neg = vlib.tlc(SPEC, 'KeyPool', vlib.cfg(dict(pc, StaleBug=True), invariants=['CacheIsScalarTimesG']), name='kpneg')
     if 'CacheIsScalarTimesG' not in neg.violated:
         raise vlib.Undecided('negative control: an aggregation that pre-fills the cache from some inputs satisfies CacheIsScalarTimesG')
@@ -56,7 +56,8 @@ def run_c12(tier):
         raise vlib.Undecided('KeyPool enumeration produced %d behaviours' % len(pools))
     ck.cov['pool_behaviours'] = len(pools)
     preps = 1 if tier == 'quick' else 3
-    jobs += [{'kind': 'keygen', 'seed': vlib.jseed(seed, i, 1000 + r), 'case': cs} for r in range(preps) for i, cs in enumerate(pools)]
+    # few distinct scalar pairs, so that the reference public keys (slow math/big G2 arithmetic) are computed once per value and memoised
+    jobs += [{'kind': 'keygen', 'seed': vlib.jseed(seed, i % 6, 1000 + r), 'case': cs} for r in range(preps) for i, cs in enumerate(pools)]
     execute(ck, 'C12', jobs)
     for cs in pools:
         ck.case(vlib.digest(cs['hist']), any(h['op'] == 'Agg' for h in cs['hist']))
